@@ -50,7 +50,7 @@ theorem C01_run {cfg : Cfg} {stks : List (List Problem.Wrapper)} {rootEnv : NewE
     {evs : List Ev} (hi : init cfg stks rootEnv = .ok t0) (h : exec t0 evs = .ok t) : LogInBox t := by
   have h0 : LogInBox t0 := by
     have ce := createDeme_effect hi
-    obtain ⟨_, d, _, _, _, _, _, _, _, _, _, _, _, _, invs, hlog, _, hb, _⟩ := ce.demes
+    obtain ⟨_, d, _, _, _, _, _, _, _, _, _, _, _, _, _, invs, hlog, _, hb, _⟩ := ce.demes
     apply logInBox_append ce.cfg (by intro i hi; simp at hi) ⟨invs, hlog, ?_⟩
     intro i hi
     obtain ⟨a, lc, h1, h2⟩ := hb i hi
